@@ -3,7 +3,7 @@
 R08-a format_file pipeline order on one buffer · R08-b newline-style mapping table; Auto detection operand
 """
 from absint import explore, vkey, variant_name, TooManyPaths
-from common import short, bool_branches
+from common import short, bool_branches, Call
 
 import re
 
@@ -108,6 +108,19 @@ def run(ctx):
             if path.end != "ret":
                 continue
             st = [variant_name(v) for k, v in path.decisions if k.startswith("discr(") and "effective_newline_style(" in k]
+            if not st:
+                # `style == EffectiveNewlineStyle::X` (the derived, field-less PartialEq): true selects X, false the other
+                # variant of the two-variant enum
+                adt = next((a for k_, a in p.adts.items() if k_.endswith("newline_style::EffectiveNewlineStyle")), None)
+                names = [v_["name"] for v_ in adt["variants"]] if adt else []
+                for k, v in path.decisions:
+                    m = re.match(r"^<[^>]*EffectiveNewlineStyle as std::cmp::PartialEq>::(eq|ne)\((.*)\)$", k)
+                    if not m or not isinstance(v, bool) or len(names) != 2:
+                        continue
+                    a, b = m.group(2).rsplit(",", 1) if m.group(2).rsplit(",", 1)[-1] in names else m.group(2).split(",", 1)[::-1]
+                    if b in names and "effective_newline_style(" in a:
+                        same = v == (m.group(1) == "eq")
+                        st = [b if same else [x for x in names if x != b][0]]
             stores = [e for e in path.effects if e.kind == "store" and e.name == "arg2"]
             val = vkey(stores[-1].args[0]) if stores else ""
             want = {"Windows": "convert_to_windows_newlines(arg2)", "Unix": "convert_to_unix_newlines(arg2)"}
@@ -123,6 +136,7 @@ def run(ctx):
     blank_line_clamp(ctx, "R08-d")
     normalisation_table_searched_whole(ctx, "R08-e")
     newline_runs_have_one_producer(ctx, "R08-f")
+    nested_snippets_are_formatted_in_unix_style(ctx, "R08-g")
     # operand of the Auto detection at the only call site
     if f is not None:
         for c in f.calls():
@@ -371,3 +385,62 @@ def newline_runs_have_one_producer(ctx, rid):
                         "position (one blank line inside lists and comment runs)", [c.loc()])
     r.floor(rid, n, 3, "str::repeat calls")
     r.floor(rid, len(sites), 1, "line-break repetitions (push_vertical_spaces)")
+
+
+def nested_snippets_are_formatted_in_unix_style(ctx, rid):
+    """R08-g: the wrapped snippet of format_code_block is formatted with newline_style = Unix, whatever it is for"""
+    from common import blocks_dominate
+    p, r = ctx.p, ctx.r
+    r.rule(rid, "format_code_block wraps a snippet in `fn main() {\\n` … `\\n}`, formats it in a nested session and cuts the wrapper "
+                "off again by the *byte length* of that prefix; the conversion to the configured line terminator happens once, "
+                "for the whole file, afterwards (apply_newline_style in format_file). So every call of format_snippet in "
+                "format_code_block receives a Config on which `newline_style(NewlineStyle::Unix)` was set on every path — "
+                "the setter call dominates the format_snippet call and both act on the same local copy. With the caller's "
+                "Windows style the nested text starts `fn main() {\\r\\n`, the cut lands between `\\r` and `\\n`, and the Windows "
+                "output is no longer the Unix output with the terminators exchanged (a blank line appears after `=> {`)")
+    f = p.fns.get("rustfmt_nightly::format_code_block")
+    if f is None:
+        r.undecidable(rid, "format_code_block not found")
+        return
+    fs = [c for c in f.calls() if c.name.endswith("::format_snippet")]
+    def unix_setters(g):
+        out = []
+        for c in g.calls():
+            if not (c.name.endswith("::newline_style") and "ConfigSetter" in c.name and len(c.args) == 2):
+                continue
+            a = c.args[1]
+            v = None
+            if a[0] != "k":
+                for bb, kind, st in g.defs().get(a[1][0], []):
+                    if kind == "assign" and not isinstance(st, Call) and st[2][0] == "agg" and st[2][1][0] == "adt":
+                        v = st[2][1][2]
+            if v == "Unix":
+                out.append(c)
+        return out
+    unix = unix_setters(f)
+    for c in fs:
+        cfg = c.args[1] if len(c.args) > 1 else None
+        roots = f.derived_from(cfg[1][0])["locals"] if cfg and cfg[0] != "k" else set()
+        owned = {l for l in roots if f.locals[l].endswith("config::Config") and not f.locals[l].startswith("&")}
+        ok = False
+        for s_ in unix:
+            sroots = f.derived_from(s_.args[0][1][0])["locals"]
+            if owned & sroots and blocks_dominate(f, [s_.bb], c.bb):
+                ok = True
+        # the copy may be made by a helper that returns it: the helper sets Unix before every return
+        for l in owned:
+            for bb, kind, st in f.defs().get(l, []):
+                h = p.fns.get(st.name) if isinstance(st, Call) else None
+                if h is not None and h.crate == "rustfmt_nightly":
+                    us = unix_setters(h)
+                    if us and all(blocks_dominate(h, [u.bb for u in us], rb) for rb in h.returns()) and blocks_dominate(f, [bb], c.bb):
+                        ok = True
+        r.instance(rid, "format_code_block: Config handed to format_snippet", "ok" if ok else "violation", c.loc(),
+                   "own copy with newline_style(Unix) set on every path: %s" % ok)
+        if not ok:
+            r.violation(rid, "format_code_block formats the wrapped snippet without forcing newline_style = Unix",
+                        "the Config handed to format_snippet is %s: with newline_style = Windows the wrapper is cut off in the "
+                        "middle of a CRLF" % ("a copy on which newline_style(Unix) is not set on every path" if owned else
+                                              "not a local copy with newline_style(Unix) set (the caller's configuration)"),
+                        [c.loc()])
+    r.floor(rid, len(fs), 1, "format_snippet calls in format_code_block")
